@@ -131,7 +131,7 @@ func runC10(r *Report) {
 			dnf := GuardDNF(s.Block, 4)
 			pending := AllDisjuncts(dnf, func(g Guard) bool { ip, ok := pendingGuard(g, elem); return ok && ip })
 			completed := AllDisjuncts(dnf, func(g Guard) bool { ip, ok := pendingGuard(g, elem); return ok && !ip })
-			isCancel := FuncName(fn) == "rueidis.(*lru).Cancel"
+			isCancel := FuncName(fn) == "rueidis.(*lru).Cancel" || helperOnlyCalledFrom(p, fn, map[string]bool{"rueidis.(*lru).Cancel": true}, 2)
 			if isCancel {
 				r.ObSite("R10b", s, "remove-state", pending, "Cancel may only remove an entry known to be in flight (e.val.typ == 0); guards: "+GuardStrings(dnf))
 			} else {
